@@ -107,6 +107,73 @@ theorem depth_engines_agree (configured n : Nat) :
   · have h2 : ¬ (1 + n ≤ interpEffectiveLimit configured + 1) := by omega
     simp [h2, h]
 
+/-- **Sequential invocations do not accumulate depth.**  A loop of `k ≥ 1` invocations made one after the
+other, `base` Cadence invocations below the entry point, behaves alike in both engines for every configured
+limit and every `k`: it succeeds iff one more level fits (`base + 1 ≤` the effective limit) and then leaves
+the depth where the loop started — however large `k` is (in particular `k` ≥ the limit). -/
+theorem sequential_calls_do_not_accumulate (configured base k : Nat) (hk : 1 ≤ k) :
+    (interpSeq configured base k seqCounted).isSome = (vmSeq configured base k seqCounted).isSome ∧
+    ((interpSeq configured base k seqCounted).isSome = true ↔ base + 1 ≤ interpEffectiveLimit configured) ∧
+    (base + 1 ≤ interpEffectiveLimit configured →
+      interpSeq configured base k seqCounted = some base ∧ vmSeq configured base k seqCounted = some (base + 1)) := by
+  unfold interpSeq vmSeq seqTrace vmEffectiveLimit
+  rw [depthRun_append, depthRun_append,
+    depthRun_calls (interpEffectiveLimit configured) base 0 (Nat.zero_le _),
+    depthRun_calls_vm (interpEffectiveLimit configured + 1) base 1 (by omega)]
+  have hk0 : ¬ (k = 0) := by omega
+  by_cases h : base + 1 ≤ interpEffectiveLimit configured
+  · have h1 : 0 + base ≤ interpEffectiveLimit configured := by omega
+    have h2 : 1 + base ≤ interpEffectiveLimit configured + 1 := by omega
+    have h3 : 0 + base + 1 ≤ interpEffectiveLimit configured := by omega
+    have h4 : 1 + base + 1 ≤ interpEffectiveLimit configured + 1 := by omega
+    simp only [h1, h2, if_true, Option.bind_some]
+    rw [depthRun_seq_interp, depthRun_seq_vm _ _ h2]
+    simp [h4, h]; omega
+  · by_cases h1 : 0 + base ≤ interpEffectiveLimit configured
+    · have h2 : 1 + base ≤ interpEffectiveLimit configured + 1 := by omega
+      have h3 : ¬ (0 + base + 1 ≤ interpEffectiveLimit configured) := by omega
+      have h4 : ¬ (1 + base + 1 ≤ interpEffectiveLimit configured + 1) := by omega
+      simp only [h1, h2, if_true, Option.bind_some]
+      rw [depthRun_seq_interp, depthRun_seq_vm _ _ h2]
+      simp [h4, h, hk0]
+    · have h2 : ¬ (1 + base ≤ interpEffectiveLimit configured + 1) := by omega
+      have h1' : ¬ (base ≤ interpEffectiveLimit configured) := by omega
+      simp [h1', h2, h]
+
+/-- What an unbalanced limiter does (the shape of a lost `OnInvokedFunctionReturn`: each iteration counts
+a call and no return): under limit 3 four *sequential* calls fail although the nesting never exceeds 1,
+while the balanced trace succeeds for any number of calls. -/
+theorem unbalanced_return_accumulates_witness :
+    depthRun (interpCall 3) (List.replicate 4 [Ev.call, Ev.other]).flatten 0 = none ∧
+    depthRun (interpCall 3) (List.replicate 4 seqCounted).flatten 0 = some 0 := by decide
+
+/-- **Finding `vm-destroy-event-counts-call-frames`** (shape shown at limit 3): destroying a resource with a
+`ResourceDestroyed` event `base` = limit − 1 invocations below the entry point succeeds in the interpreter
+(nothing is invoked) and raises the call-depth error in the VM (two nested frames: `$ResourceDestroyed` and
+the event constructor); one level higher both succeed. -/
+theorem vm_destroy_event_frames_witness :
+    interpSeq 3 2 1 destroyEvInterp = some 2 ∧ vmSeq 3 2 1 destroyEvVM = none ∧
+    interpSeq 3 1 1 destroyEvInterp = some 1 ∧ vmSeq 3 1 1 destroyEvVM = some 2 := by decide
+
+/-- … and outside that region (two more levels fit below the limit) the engines agree on destroy events:
+both succeed, for every configured limit and any number of destroys. -/
+theorem destroy_event_engines_agree_partial (configured base k : Nat)
+    (h : base + 2 ≤ interpEffectiveLimit configured) :
+    interpSeq configured base k destroyEvInterp = some base ∧
+    vmSeq configured base k destroyEvVM = some (base + 1) := by
+  unfold interpSeq vmSeq seqTrace vmEffectiveLimit
+  rw [depthRun_append, depthRun_append,
+    depthRun_calls (interpEffectiveLimit configured) base 0 (Nat.zero_le _),
+    depthRun_calls_vm (interpEffectiveLimit configured + 1) base 1 (by omega)]
+  have h1 : 0 + base ≤ interpEffectiveLimit configured := by omega
+  have h2 : 1 + base ≤ interpEffectiveLimit configured + 1 := by omega
+  simp only [h1, h2, if_true, Option.bind_some]
+  constructor
+  · have := depthRun_uncounted (interpCall (interpEffectiveLimit configured)) (0 + base) k
+    simp only [seqUncounted] at this
+    simp only [destroyEvInterp, this]; simp
+  · rw [depthRun_destroyEv_vm _ _ (by omega)]; congr 1; omega
+
 /-- **Why /repo bc0b586 is needed** (the former finding `vm-depth-limit-off-by-one`, shape shown at limit 3;
 the Go constant is 2000): with the *same* limit in both engines, the VM's call stack already holds the
 entry point's frame, so recursion exactly `limit` deep succeeds in the interpreter and fails in the VM. -/
@@ -135,6 +202,13 @@ example : Disciplined demoStep 1 (fun s => if s then 0 else 1) where
 
 /-- the endless loop under limit 5 stops with the limit error, within the derived bound `(1+1)·(5+1)` -/
 example : exec demoStep ((1 + 1) * (5 + 1)) true 5 = some (.limitError, 11) := by decide
+
+/-- 9 sequential calls two levels deep under limit 3 (three times the limit): fine in both engines -/
+example : interpSeq 3 2 9 seqCounted = some 2 ∧ vmSeq 3 2 9 seqCounted = some 3 ∧
+    interpSeq 3 3 9 seqCounted = none ∧ vmSeq 3 3 9 seqCounted = none := by decide
+
+/-- the shape of "constructor calls are not counted": 50 nested initializers under limit 10 go through -/
+example : depthRun (interpCall 10) (List.replicate 50 Ev.other) 0 = some 0 ∧ interpNested 10 50 = none := by decide
 
 example : depthRun (interpCall 3) [.call, .call, .ret, .call, .call, .call] 0 = none ∧
     depthRun (interpCall 3) [.call, .call, .ret, .call, .call] 0 = some 3 := by decide
